@@ -97,6 +97,18 @@ CHECKS.update({
     ),
 })
 
+CHECKS.update({
+    "C06": (
+        "Hypothesis-generated view trees + ordered consumers; index-map oracle on b.grad, memory-sharing and aliasing clauses, plus complex-step values",
+        "Generated search over view chains (depth <= 4) on C/F-ordered or intermediate bases with consumers of varying "
+        "kinds and creation order, so that the layout/order of the base's first gradient contribution varies; every "
+        "view's gradient must be the view-chain of the base's gradient, share its memory, stay valid on re-read, and "
+        "non-overlapping tensors must have non-overlapping gradients. Exploration only.",
+        "Index maps come from replaying the view ops on NumPy integer arrays; single epoch; no constant= flags.",
+        "DESIGN.md §3 C06",
+    ),
+})
+
 NOT_YET = {
 }
 
